@@ -134,6 +134,10 @@ func genCase(t *rapid.T) Case {
 		class["stray-copy-messages"] = true
 	}
 	c.Msgs = append(c.Msgs, script.CMsg{K: "S"}, script.CMsg{K: "Q", Query: "select 1"})
+	if rapid.IntRange(0, 7).Draw(t, "inside-tls") == 3 {
+		c.TLS = true
+		class["inside-tls"] = true
+	}
 	for k := range class {
 		c.Classes = append(c.Classes, k)
 	}
